@@ -1,6 +1,7 @@
 import TracklibVerif.Model.ObsTime
 import TracklibVerif.Model.ObsTimeG
 import TracklibVerif.Model.ObsTimeZone
+import TracklibVerif.Model.ObsTimeOperand
 import TracklibVerif.Drv.Util
 /-! Driver handler for C03 (ObsTime). Commands:
   read <ms>                          → y m d H M S ms
@@ -8,6 +9,8 @@ import TracklibVerif.Drv.Util
   cmp <7 fields a> <7 fields b>      → lt gt eq le ge ne  (0/1 each)
   add <7 fields> <nbsec>             → y m d H M S ms
   civil <y> <m> <d>                  → day number (spec)
+  cmpo <7 fields a> <class a> inst <class b> <7 fields b> | cmpo <7 fields a> <class a> other
+                                     → a<x a>x a==x a<=x a>=x a!=x x==a x!=a   (0/1, `attr` = AttributeError; `Model/ObsTimeOperand.lean`)
  float path (`readUnixG`, `toAbsG`, … instantiated at IEEE doubles; floats cross as bit patterns, fields are integers):
   readf <x>                          → y m d H M S ms <bits of its toAbsTime()> | err:nonterm   (readUnixTime(x))
   absf <7 fields>                    → bits of toAbsTime()
@@ -175,10 +178,39 @@ def handleProg (args : List String) : Option String :=
     let (σ, outs) := run floatTrunc State.empty ops
     some (joinWith "|" (outs.map showOut) ++ "#" ++ joinWith ";" (σ.store.map showObsZ) ++ "#" ++ showList toString σ.track)
 
+def showOB : Option Bool → String
+  | some b => showBool b
+  | none => "attr"
+
+/-- `cmpo <7 fields a> <class a> inst <class b> <7 fields b>` / `cmpo <7 fields a> <class a> other`:
+`a<x a>x a==x a<=x a>=x a!=x x==a x!=a` (0/1, `attr` = AttributeError). For an `x` that is not a timestamp, `x == a` and
+`x != a` are, by Python's reflection rule (`type(x).__eq__/__ne__` answer NotImplemented), `a.__eq__(x)` and `a.__ne__(x)`. -/
+def handleO (args : List String) : Option String :=
+  match args with
+  | y :: m :: d :: h :: mi :: s :: ms :: ca :: rest =>
+    match [y, m, d, h, mi, s, ms, ca].mapM String.toNat? with
+    | some [y, m, d, h, mi, s, ms, ca] =>
+      let a : Stamp := ⟨⟨y, m, d, h, mi, s⟩, ms⟩
+      match rest with
+      | ["other"] =>
+        some (" ".intercalate ((cmpO ca a .other ++ [some (eqO ca a .other), some (neO ca a .other)]).map showOB))
+      | "inst" :: more =>
+        match more.mapM String.toNat? with
+        | some (cb :: fs) =>
+          match stamp? fs with
+          | some (b, []) =>
+            some (" ".intercalate ((cmpO ca a (.inst cb b) ++ [some (eqO cb b (.inst ca a)), some (neO cb b (.inst ca a))]).map showOB))
+          | _ => none
+        | _ => none
+      | _ => none
+    | _ => none
+  | _ => none
+
 def isF (cmd : String) : Bool := ["readf", "absf", "rtf", "addf", "cmpf", "subf", "default"].contains cmd
 
 def handle (cmd : String) (args : List String) : String :=
   if cmd == "prog" then (handleProg args).getD "bad-request" else
+  if cmd == "cmpo" then (handleO args).getD "bad-request" else
   if isF cmd then (handleF cmd args).getD "bad-request" else
   match args.mapM String.toNat? with
   | none => "bad-request"
